@@ -21,7 +21,7 @@ TRUSTED = ["decimal.Decimal constructor is exact; fractions.Fraction as the exac
 ASSUMPTIONS = ["integer formats: the default 28-digit context is exact on the domain of 64-bit formats (validated by the correspondence up to 2^64, not proved)",
                "float format: the result is compared as the nearest double of the model's rational",
                "tie direction for a value BELOW the offset (only possible when no minValue is declared and the value is negative) is away from zero; the property's 'ties upward' is checked for values at or above the declared minimum"]
-EXPLANATION = "Lean theorems C14_* over the exact-rational model (grid membership, nearest with ties upward, range, integrality); differential tie through Service.build_update / check_convert_value with exact rationals"
+EXPLANATION = "Lean theorems C14_* over the exact-rational model (grid membership, nearest with ties upward, range, integrality, the six-digit float path with its error bound); differential tie through Service.build_update / check_convert_value with exact rationals"
 
 INT_RANGES = {"uint8": (0, 255), "uint16": (0, 65535), "uint32": (0, 2 ** 32 - 1), "uint64": (0, 2 ** 64 - 1), "int": (-2 ** 31, 2 ** 31 - 1)}
 
